@@ -88,6 +88,26 @@ D['fanout'] = ('''
 ''', [('s.o[0]', 's.x'), ('s.o[1]', 's.o[0]'), ('s.o[2]', 's.x')])
 
 
+# connect statements executed inside child components (so that the connection graph can be written down without pymtl3)
+EXTRA_EDGES = {'hier3': [('s.m.l.in_', 's.m.in_'), ('s.m.out', 's.m.l.out'), ('s.p.out', 's.p.in_')]}
+
+
+# the writer of every net, written down by hand from the rule in the property ("the member driven by an update block, a
+# top-level input, a constant, or a bit-overlapping driven relative"); one writer per connected component
+WRITERS = {
+  'chain': ['s.a'],                                              # s.a is written by up_a
+  'slices': ['s.x[0:4]', 's.x[2:6]', 's.x[4:8]'],                # slices of the block-written s.x
+  'slice_driven_wider_connected': ['s.x[0:16]', 's.x[2:10]'],    # relatives overlapping the block-written slices of s.x
+  'inner_slice_only': ['s.x[0:16]', 's.x[2:10]'],
+  'struct_fields': ['s.in_', 's.in_.a', 's.in_.b', 's.in_.b[1:3]'],   # the top-level input and its parts
+  'nested_whole_driven': ['s.w.p', 's.w.p.a', 's.w.q', 's.w.q[0:4]'],
+  'nested_middle_level': ['s.v', 's.w.p', 's.w.q'],             # s.v (input) drives s.w.p.a; s.w.p overlaps driven fields
+  'const': ['CONST:42'],
+  'hier3': ['s.in_', 's.m.l.out'],                                # top-level input; the leaf's block-written output
+  'fanout': ['s.x'],
+}
+
+
 def variants(stmts, limit=24):
   n = len(stmts)
   out = []
